@@ -151,6 +151,14 @@ func checkVerdict(p vrP) (string, *mc.Viol) {
 		return "", &mc.Viol{Sig: "harness: bad case parameters", What: p.R + " " + p.S}
 	}
 	dg, _ := hex.DecodeString(p.VDig)
+	// the verifier has just accepted the honest signature of this key and digest: nothing it may
+	// remember of that (a cache of accepted signatures, of the last digest, ...) may decide this case
+	if hr, hs, hv := p.base.honest(); hv == nil {
+		ok := false
+		if pn := mc.Catch(func() { ok = ecdsa.Verify(k.forkPub(), p.base.digest(), hr, hs) }); pn != "" || !ok {
+			return "", &mc.Viol{Sig: p.Curve + ": Verify rejects an honest signature of this package", What: p.label() + " " + pn}
+		}
+	}
 	here, std, pHere, pStd := verdicts(k, dg, r, s)
 	desc := fmt.Sprintf("%s r=%s s=%s digest-variant=%s", p.label(), p.RName, p.SName, p.VName)
 	if pStd != "" {
